@@ -235,6 +235,10 @@ pub(crate) struct CommitPipeline {
 	shutdown: AtomicBool,
 	// Write stall controller - checked before acquiring write_mutex
 	write_stall: Arc<WriteStallController>,
+	/// Counts the restores from a checkpoint. A transaction remembers the value it saw
+	/// when it began; after a restore its snapshot belongs to a discarded timeline and it
+	/// can no longer be validated, so its commit is refused.
+	restore_epoch: AtomicU64,
 }
 
 impl CommitPipeline {
@@ -253,6 +257,7 @@ impl CommitPipeline {
 			commit_sem: Arc::new(Semaphore::new(MAX_CONCURRENT_COMMITS - 1)),
 			shutdown: AtomicBool::new(false),
 			write_stall,
+			restore_epoch: AtomicU64::new(0),
 		})
 	}
 
@@ -282,9 +287,37 @@ impl CommitPipeline {
 	/// NOT called at startup — see `set_seq_num` above.
 	pub(crate) fn reset_oracle_for_restore(&self, max_seq: u64) {
 		self.oracle.reset_for_restore(max_seq);
+		self.restore_epoch.fetch_add(1, Ordering::AcqRel);
 	}
 
-	pub(crate) async fn commit(&self, mut batch: Batch, sync: bool, start_seq: u64) -> Result<()> {
+	/// The number of restores so far (see `restore_epoch`).
+	pub(crate) fn restore_epoch(&self) -> u64 {
+		self.restore_epoch.load(Ordering::Acquire)
+	}
+
+	/// `commit` for a transaction that began when `restore_epoch()` was `begin_epoch`.
+	pub(crate) async fn commit_from_epoch(
+		&self,
+		batch: Batch,
+		sync: bool,
+		start_seq: u64,
+		begin_epoch: u64,
+	) -> Result<()> {
+		self.commit_checked(batch, sync, start_seq, Some(begin_epoch)).await
+	}
+
+	#[cfg_attr(not(test), allow(dead_code))]
+	pub(crate) async fn commit(&self, batch: Batch, sync: bool, start_seq: u64) -> Result<()> {
+		self.commit_checked(batch, sync, start_seq, None).await
+	}
+
+	async fn commit_checked(
+		&self,
+		mut batch: Batch,
+		sync: bool,
+		start_seq: u64,
+		begin_epoch: Option<u64>,
+	) -> Result<()> {
 		#[cfg(surrealkv_verif)]
 		crate::verif::yieldp::yield_point("commit.enter", start_seq, batch.count() as u64);
 		if self.shutdown.load(Ordering::Acquire) {
@@ -339,6 +372,17 @@ impl CommitPipeline {
 			let _guard = self.write_mutex.lock();
 			#[cfg(surrealkv_verif)]
 			crate::verif::yieldp::yield_point("commit.locked", 0, 0);
+
+			// A transaction that began before the last restore from a checkpoint read a
+			// timeline that no longer exists: the oracle was reset and the sequence
+			// counter rewound, so its start point says nothing about the restored store
+			// (it could overwrite commits made after the restore, and it could drag the
+			// oracle's GC watermark above the visible sequence number). Refuse it.
+			if let Some(begin_epoch) = begin_epoch {
+				if begin_epoch != self.restore_epoch.load(Ordering::Acquire) {
+					return Err(Error::TransactionRetry);
+				}
+			}
 
 			// Validate against the oracle. No state has changed yet; on
 			// failure `?` simply returns the error to the caller.
